@@ -107,6 +107,8 @@ pub fn flag_cfg() -> Cfg {
             |c| rep(c, 0, None, Q::Greedy),
             |c| rep(c, 1, None, Q::Lazy),
             |c| rep(c, 1, Some(2), Q::Greedy),
+            |c| rep(c, 0, None, Q::Poss),
+            |c| rep(c, 0, Some(1), Q::Poss),
             |c| Some(Flags("i".into(), "".into(), bx(c))),
             |c| Some(Flags("".into(), "i".into(), bx(c))),
             |c| Some(Flags("s".into(), "".into(), bx(c))),
